@@ -645,10 +645,11 @@ class ViewParameter(AbstractParameter, ParameterListener):
             # example: torch.tensor([0,1,2])[1:2] == torch.tensor([1])
             indices = data['indices']
         elif isinstance(data['indices'], list):
-            if isinstance(data['indices'], int):
-                indices = torch.LongTensor(data['indices'])
-            elif isinstance(data['indices'], bool):
+            # bool is a subclass of int: test it first
+            if all(isinstance(i, bool) for i in data['indices']):
                 indices = torch.BoolTensor(data['indices'])
+            elif all(isinstance(i, int) for i in data['indices']):
+                indices = torch.LongTensor(data['indices'])
         elif isinstance(data['indices'], str):
             # [ <first element to include> : <first element to exclude> : <step> ]
             slice_indexes = data['indices'].split(':')
